@@ -247,3 +247,79 @@ def obligations(ctx):
     if nok == 0:
         ob.fail("no Ok path")
     ob.finish(E)
+    input_ref_script_sizes(ctx)
+
+
+def input_ref_script_sizes(ctx):
+    """the tiered reference-script fee is charged on the size of EVERY script a spent input takes from a reference input:
+    TxInputsBuilder::get_script_ref_inputs_with_size yields one (reference input, declared size) pair per witness that takes its
+    script by reference - also when several inputs are locked by the same script hash and use different references."""
+    import itertools
+    P = ctx.P
+    ob = Obligation(ctx, "c06_e2_input_ref_script_sizes_per_witness", "1-2 script hashes x 1-2 inputs each; witness of each input: native inline / native by reference / Plutus script inline or by reference / absent; sizes arbitrary",
+                    ["TxInputsBuilder::get_script_ref_inputs_with_size", "ScriptWitnessType::get_script_ref_input_with_size"], fallback_native="e2n_c06_ref_script_sizes")
+    agg = Engine(P)
+    KINDS = ["NI", "NR", "Pi", "Pr", "A"]
+    nok = 0
+    for layout in [(1,), (2,), (1, 1), (2, 1)]:
+        n = sum(layout)
+        for pat in itertools.product(KINDS, repeat=n):
+            if n == 3 and (pat.count("A") + pat.count("NI") + pat.count("Pi")) > 1:
+                continue
+            E = Engine(P, max_loop=2 * n + 6)
+            E.U = agg.U
+            sizes = [E.sym_int("size%d" % j, "usize") for j in range(n)]
+            want = []
+            def mk(layout=layout, pat=pat, E=E, want=want, sizes=sizes):
+                del want[:]
+                groups, j = [], 0
+                for h, cnt in enumerate(layout):
+                    inner = []
+                    for _ in range(cnt):
+                        k = pat[j]
+                        if k == "A":
+                            w = opt(None)
+                        elif k == "NI":
+                            w = opt(VEnum("ScriptWitnessType", "NativeScriptWitness", [VEnum("NativeScriptSourceEnum", "NativeScript", [VLazy("ns%d" % j, "NativeScript"), VLazy("sg%d" % j, "Option<Ed25519KeyHashes>")])]))
+                        elif k == "NR":
+                            w = opt(VEnum("ScriptWitnessType", "NativeScriptWitness", [VEnum("NativeScriptSourceEnum", "RefInput", [VLazy("ref%d" % j, "TransactionInput"), VLazy("nh%d" % j, "ScriptHash"),
+                                                                                                                                  VLazy("sg%d" % j, "Option<Ed25519KeyHashes>"), VInt(sizes[j].t, "usize")])]))
+                            want.append(("ref%d" % j, sizes[j].t))
+                        else:
+                            script = VEnum("PlutusScriptSourceEnum", "Script", [VLazy("ps%d" % j, "PlutusScript"), VLazy("psg%d" % j, "Option<Ed25519KeyHashes>")]) if k == "Pi" else \
+                                VEnum("PlutusScriptSourceEnum", "RefInput", [E.mk_struct("PlutusScriptRef", input_ref=VLazy("ref%d" % j, "TransactionInput"), script_size=VInt(sizes[j].t, "usize")), VLazy("psg%d" % j, "Option<Ed25519KeyHashes>")])
+                            if k == "Pr":
+                                want.append(("ref%d" % j, sizes[j].t))
+                            w = opt(VEnum("ScriptWitnessType", "PlutusScriptWitness", [E.mk_struct("PlutusWitness", script=script, datum=VLazy("d%d" % j, "Option<DatumSourceEnum>"), redeemer=VLazy("red%d" % j, "Redeemer"))]))
+                        inner.append(VStruct("()", [VLazy("txin%d" % j, "TransactionInput"), w]))
+                        j += 1
+                    groups.append(VStruct("()", [VLazy("sh%d" % h, "ScriptHash"), VSeq(inner, "map")]))
+                rw = E.mk_struct("InputsRequiredWitness", scripts=VSeq(groups, "map"))
+                return [R(E.mk_struct("TxInputsBuilder", required_witnesses=rw), "self")]
+            try:
+                outs = E.explore("TxInputsBuilder::get_script_ref_inputs_with_size", mk, max_paths=50)
+            except Unsupported as e:
+                ob.fail("layout %s witnesses %s: cannot be executed (%s)" % (layout, "/".join(pat), str(e)[:200])); continue
+            for o in outs:
+                if o.kind != "return":
+                    ob.vc("no panic (%s %s)" % (o.kind, o.msg[:60]), o.pc, z3.BoolVal(False)); continue
+                it = VM.deref(E, o.value)
+                if not isinstance(it, VSeq):
+                    ob.fail("the result is not a sequence the engine can follow: %r" % (it,)); continue
+                nok += 1
+                E.enter(o)
+                got = []
+                for x in it.items[it.pos:]:
+                    x = VM.deref(E, x)
+                    r_, s_ = VM.deref(E, x.fields[0]), VM.deref(E, x.fields[1])
+                    got.append((r_.path if isinstance(r_, VLazy) else repr(r_), s_.t))
+                if sorted(g[0] for g in got) != sorted(w[0] for w in want):
+                    ob.violation("layout %s witnesses %s: scripts are taken from the reference inputs %s, sizes are reported for %s" % (layout, "/".join(pat), sorted(w[0] for w in want), sorted(g[0] for g in got))); continue
+                wd = dict(want)
+                if got:
+                    ob.vc("layout %s witnesses %s: every reported size is the one declared for that reference" % (layout, "/".join(pat)), o.pc, z3.And([s_ == wd[r_] for r_, s_ in got]))
+            agg.stats["paths"] += E.stats["paths"]; agg.stats["feasibility_queries"] += E.stats["feasibility_queries"]; agg.stats["functions"] |= E.stats["functions"]
+    if nok < 20:
+        ob.fail("only %d witness patterns executed" % nok)
+    ob.cross_every = 8
+    ob.finish(agg, lambda m, info=None: ("e2n_c06_ref_script_sizes", []))
